@@ -75,9 +75,10 @@ fn case(n: usize, vals: &[i64], events: &[usize]) -> (Vec<usize>, Vec<i64>, Vec<
             if let Some(g) = gates[t].take() {
                 let _ = g.send(());
             }
+            in_closure[t] = false; // released: its return is awaited like everybody else's
             // t returns, then every started thread that was blocked wakes up and returns (or enters its own closure
             // if the cell lets it: then it stays gated, like in the model)
-            let deadline = std::time::Instant::now() + Duration::from_millis(2000);
+            let deadline = std::time::Instant::now() + Duration::from_millis(20000);
             loop {
                 let pending = (0..n).any(|q| started[q] && ret[q] == -2 && !in_closure[q]);
                 if !pending {
@@ -103,6 +104,10 @@ fn case(n: usize, vals: &[i64], events: &[usize]) -> (Vec<usize>, Vec<i64>, Vec<
     drop(tx);
     for h in handles {
         let _ = h.join();
+    }
+    // every thread has finished: whatever it reported last is in the channel
+    while let Ok(m) = rx.try_recv() {
+        absorb(m, &mut in_closure, &mut ret);
     }
     let total = runs.load(SeqCst);
     if total > 1 {
